@@ -45,6 +45,13 @@ impl TypeScheme {
         }
     }
 
+    /// Verification hook (property C17 of /verif): instantiate the quantified variables, in their numbering,
+    /// with the given variables.
+    #[cfg(feature = "verif")]
+    pub(crate) fn verif_instantiate_with(&self, new_type_variables: &[TypeVariable]) -> QualifiedType {
+        self.instantiate_with(new_type_variables)
+    }
+
     pub fn instantiate_for_printing<'a, I: Iterator<Item = &'a str> + ExactSizeIterator>(
         &self,
         type_parameters: Option<I>,
